@@ -595,10 +595,17 @@ def k5(prog, rep):
                         bufk = side[2][1]
                     elif side[0] == "&" and side[2] == ("c", 0xff):
                         sh_ = side[1][2][1] if side[1][0] == ">>" else 0
+                        # the value shifted is the running state itself -- what this very statement assigns (a cached copy taken
+                        # before the loop is the state of the first iteration only)
+                        src = side[1][1] if side[1][0] == ">>" else side[1]
+                        if src != norm(st[0].kid(0)):
+                            sh_ = ("stale", show(src))
                 pairs.add((p[1][1], sh_, bufk))
         ok4 = pairs == {("T0", 24, 3), ("T1", 16, 2), ("T2", 8, 1), ("T3", 0, 0)} and len(parts) == 4
         p1 = flatten(norm(st[1].kid(1)), "^")
-        ok1 = len(p1) == 2 and any(x[0] == ">>" and x[2] == ("c", 8) for x in p1) and any(x[0] == "[]" and x[1][1] == "T0" and show(x[2]).replace(" ", "") == "((ctx->state&255)^buf[0])" for x in p1)
+        S1 = show(norm(st[1].kid(0)))
+        ok1 = len(p1) == 2 and any(x[0] == ">>" and x[2] == ("c", 8) and x[1] == norm(st[1].kid(0)) for x in p1) and \
+            any(x[0] == "[]" and x[1][1] == "T0" and show(x[2]).replace(" ", "") == "((%s&255)^buf[0])" % S1 for x in p1) and norm(st[1].kid(0)) == norm(st[0].kid(0))
         g4 = any(op == ">=" and show(L) == "len" and R == ("c", 4) for cond, truth in up.edge_conds(st[0]) for op, L, R, _, _ in cond_atoms(cond, truth))
         adv = sorted((show(norm(e.kid(0))), e.op, show(norm(e.kid(1))) if e.is_assign else "") for e in up.all_elems() if (e.is_assign and e.op in ("+=", "-=") or e.is_incdec) and norm(e.kid(0))[0] == "v")
         ok4 = ok4 and g4 and ("buf", "+=", "4") in adv and ("len", "-=", "4") in adv
